@@ -3,6 +3,9 @@
 import json, sys
 
 CHECKS = {
+ "C08": dict(engine="SIM", design="§4 C08", technique="exhaustive enumeration of worker request sequences (length <= 2 over a ~107-command alphabet from 4 bootstrap states) against an unmodified worker under syscall-level simulation with virtual time",
+   text="4608 (quick) / ~47000 (thorough) request sequences are sent over the real command channel to an unmodified Server::run(): every command of the alphabet from 4 bootstrap states and pairs of commands, each followed by three queries, Status, TCP connection probes and a SoftStop. Exactly one final status per request id; the query view equals a ConfigState fed the accepted commands; listening sockets accept iff the view says active; the SoftStop is acknowledged once and run() returns.",
+   note="No traffic is interleaved with the commands (that belongs to C10/C16). Three open known findings, all about slab accounting of listeners that never went through DeactivateListener."),
  "C02": dict(engine="SIM", design="§4 C02", technique="stateless deviation-bounded exhaustive search over environment schedules and exhaustive fault offsets under an unmodified worker event loop with interposed syscalls and virtual time",
    text="343 scenarios through an unmodified worker: each routing outcome (404/401/503), connect refused, backend garbage (502), silent backend (504 after back_timeout of virtual time), client stalling in its head (408), backend closing between keep-alive requests, and the backend closing / resetting after every byte offset j of a 147-byte response, as first and as second request of a connection, each under every schedule with at most 1 deviation: exactly one complete answer with the status matching the cause, or an explicit abort once the response has started - never a complete-looking truncated body, never late, sibling exchange intact.",
    note="HTTP/1.1 to HTTP/1.1 pair only so far. Connect stalls (SYN black hole) cannot be produced on loopback. When the backend dies inside the body before anything was relayed the worker keeps the client waiting for front_timeout and then closes without a byte: accepted by the oracle (not beyond the configured timeouts), noted in DESIGN.md."),
@@ -52,7 +55,6 @@ CHECKS = {
 
 PLANNED = {
  "C03": "SIM/ENUM check not built yet; planned, see DESIGN.md §4 C03",
- "C08": "SIM engine not built yet; planned, see DESIGN.md §4 C08",
  "C09": "SIM engine (CommandHub) not built yet; planned, see DESIGN.md §4 C09",
  "C13": "SIM engine not built yet; planned, see DESIGN.md §4 C13",
  "C14": "SIM engine not built yet; planned, see DESIGN.md §4 C14",
